@@ -454,6 +454,100 @@ pub fn check_expr(run: &mut Run, env: &[(String, Value)], e: &ExpressionTree, ex
     }
 }
 
+// ---------- statement level: SELECT ... FROM t [WHERE ...] through the real parser, lowering and FileExecutor ----------
+
+/// one select-list item with the name the property gives its column ("the alias, else the column name, else p<i>")
+fn select_item(rng: &mut Rng, i: usize, has_bool: bool) -> (String, String) {
+    const COLS: &[&str] = &["k", "v", "w", "r", "s"];
+    const EXPRS: &[&str] = &["v + 1", "v * w", "upper(k)", "length(s)", "v > w", "k IS NULL", "r / 2.0", "(CASE WHEN v > 0 THEN k ELSE s END)", "v::text", "greatest(v, w)", "'lit'", "42", "NULL", "t.v", "t.k"];
+    let alias = if rng.chance(1, 3) { Some((*rng.pick(&["a0", "x", "k", "v", "p0", "p1", "total", "input"])).to_owned()) } else { None };
+    match rng.below(10) {
+        0..=3 => {
+            let c = if has_bool && rng.chance(1, 6) { "b" } else { *rng.pick(COLS) };
+            (match &alias { Some(a) => format!("{} AS {}", c, a), None => c.to_owned() }, alias.unwrap_or_else(|| c.to_owned()))
+        }
+        4 => (match &alias { Some(a) => format!("input AS {}", a), None => "input".to_owned() }, alias.unwrap_or_else(|| "input".to_owned())),
+        _ => {
+            let e = *rng.pick(EXPRS);
+            // a table-qualified column is still a plain column access: its name is the qualified name
+            let dflt = if e.starts_with("t.") { e.to_owned() } else { format!("p{}", i) };
+            (match &alias { Some(a) => format!("{} AS {}", e, a), None => e.to_owned() }, alias.unwrap_or(dflt))
+        }
+    }
+}
+
+fn select_level(run: &mut Run, rng: &mut Rng, n: usize) {
+    use crate::c04::{gen_input, join_lines};
+    use crate::engine_run::{batch_case, prepare, run_files};
+    use crate::queries::gen_schema;
+    for _ in 0..n {
+        let sch = gen_schema(rng);
+        let star = rng.chance(1, 8);
+        let mut texts = Vec::new();
+        let mut names = Vec::new();
+        if star {
+            texts.push("*".to_owned());
+            names = vec!["k", "v", "w", "r", "s"].into_iter().map(|c| c.to_owned()).collect();
+            if sch.has_bool { names.push("b".to_owned()); }
+        } else {
+            for i in 0..1 + rng.below(4) {
+                let (t, nm) = select_item(rng, i, sch.has_bool);
+                texts.push(t);
+                names.push(nm);
+            }
+        }
+        let filter = if rng.chance(1, 2) { format!(" WHERE {}", rng.pick(&["v > 0", "k = 'a'", "w IS NOT NULL", "v + w < 10", "s != 'x' OR v = 1", "NOT (k IS NULL)", "v / w > 0", "r > 0.5", "k IN ('a', 'b')", "v NOT IN (1, 2)"])) } else { String::new() };
+        let text = format!("SELECT {} FROM t{}", texts.join(", "), filter);
+        let prepared = match prepare(&sch.defs, &text) { Ok(p) => p, Err(e) => { run.count(&format!("stmt-rejected:{}", e.split(':').next().unwrap_or(""))); continue; } };
+        let nl = rng.below(10);
+        let null_pct = *rng.pick(&[5u64, 30, 60]);
+        let lines = gen_input(rng, nl, null_pct, false);
+        let whole = run_files(&prepared, &[join_lines(&lines)]);
+        let desc = format!("query={} input={:?}", text, lines);
+        if let Some(case) = batch_case(&prepared, b"", &[join_lines(&lines)], None) {
+            run.case_with_desc(case, whole.wire(), format!("stmt:{}:star{}:where{}:items{}:rows{}", whole.status, star as u8, !filter.is_empty() as u8, names.len(), whole.records().len().min(4)), desc.clone());
+        }
+        run.oracle_checks += 1;
+        if whole.status == "panic" { run.fail(desc, "panic:select", "the run panicked".to_owned()); continue; }
+        // column names: the alias, else the column name, else p<i>
+        if let sqlgrep::Statement::Select(sel) = &prepared.statement {
+            let got: Vec<String> = sel.projections.iter().map(|p| p.0.clone()).collect();
+            if !star && got != names {
+                run.fail(desc.clone(), "projection-names", format!("the output columns are named {:?}, the property gives {:?} (alias, else column name, else p<i>)", got, names));
+                continue;
+            }
+        }
+        // one output row per qualifying row, in input order, computed from that row alone: the output over the whole
+        // input is the concatenation of the outputs over each line on its own
+        let mut concat: Vec<String> = Vec::new();
+        let mut first_err: Option<String> = None;
+        for l in &lines {
+            let one = run_files(&prepared, &[join_lines(std::slice::from_ref(l))]);
+            if one.status != "ok" { first_err = Some(one.status.clone()); break; }
+            if one.records().len() > 1 { run.fail(desc.clone(), "more-than-one-row-per-line", format!("line {:?} alone yields {:?}", l, one.records())); }
+            concat.extend(one.records());
+        }
+        match first_err {
+            Some(e) => {
+                if whole.status != e { run.fail(desc.clone(), "error-not-reported", format!("a line evaluated on its own reports {} but the whole run answers {}", e, whole.status)); }
+                else if whole.records() != concat { run.fail(desc.clone(), "rows-before-error-differ", format!("before the error the run printed {:?}, line by line {:?}", whole.records(), concat)); }
+            }
+            None => {
+                if whole.status != "ok" { run.fail(desc.clone(), "spurious-error", format!("every line evaluates on its own but the whole run answers {}", whole.status)); }
+                else if whole.records() != concat { run.fail(desc.clone(), "rows-not-per-row-in-order", format!("whole run {:?}, line by line {:?}", whole.records(), concat)); }
+            }
+        }
+        // `*` lists the columns in definition order, `input` is the raw line
+        if star && whole.status == "ok" {
+            for rec in whole.records() {
+                let cols: Vec<&str> = rec.split(", ").filter_map(|kv| kv.split(": ").next()).collect();
+                let want: Vec<&str> = names.iter().map(|x| x.as_str()).collect();
+                if cols.len() >= want.len() && cols[..1] != want[..1] { run.fail(desc.clone(), "star-order", format!("record {:?} does not start with the first defined column", rec)); break; }
+            }
+        }
+    }
+}
+
 pub fn run(p: &Params) -> Run {
     let mut run = Run::new("C03");
     let mut rng = Rng::new(p.seed ^ 0x03);
@@ -489,6 +583,9 @@ pub fn run(p: &Params) -> Run {
         }
     }
     boundary_cases(&mut run, &env, p.tier_thorough);
+    let n_stmt = p.n(1200, 40_000);
+    select_level(&mut run, &mut rng, n_stmt);
+    run.notes.push("statement level: SELECT lists mixing columns, qualified columns, expressions, `input`, `*`, aliases (also clashing ones) with WHERE; names checked against alias|column|p<i>; whole-run output = concatenation of the per-line outputs; three-way with Spec.Select".to_owned());
     run.notes.push("expression level: type-directed generator (≈ 80% well-typed, 20% with ill-typed sub-terms) + operator × type × type table".to_owned());
     run
 }
